@@ -63,6 +63,9 @@ def _mask_options(ny, nx):
 
 
 GRID_DEVS = [(-1, 0), (0, 1), (0, 0), (-1, -1), (1, 1), (-2, 1), (-1, 2)]
+# bounds that are no multiple of the sampling step (grids are float32 rasters: a prediction +/- a margin): off every
+# axis / off the subpix 1 and 2 axes only / an interval that holds no sample at all
+FRAC_DEVS = [(-0.3, 0.6), (-0.75, 0.75), (0.3, 0.4)]
 
 
 def post_menu():
@@ -109,7 +112,7 @@ def spaces(tier, seed):
     for (m, w), s in itertools.product(MW, SUBPIX):
         ny, nx = max(w, 2), w + 2
         cells = [(r, c) for r in range(ny) for c in range(nx)]
-        for (r, c), (mn, mx) in itertools.product(cells, GRID_DEVS):
+        for (r, c), (mn, mx) in itertools.product(cells, GRID_DEVS + FRAC_DEVS):
             grid1.append({"kind": "grid", "m": m, "w": w, "s": s,
                           "spec": {"ny": ny, "nx": nx, "seed": seed, "dmin": -1, "dmax": 1, "grid": [[r, c, mn, mx]]}})
     pair_cfgs = list(itertools.product(MW, SUBPIX)) if thorough else [(("sad", 3), 2), (("zncc", 1), 4),
